@@ -159,6 +159,12 @@ func installKnobs(s *sim.Sim, k plan.Knobs) {
 				return
 			}
 			d := s.Dur("Yd:"+st, n, 50, 20_000)
+			if strings.HasPrefix(st, "cache/mem.go") && s.Coin("Yl:"+st, n, 0.15) {
+				// between two statements of the memory cache's store and lookup
+				// paths (a handful of sites, each passed once per operation) a
+				// goroutine may lose the processor for a scheduler quantum
+				d = s.Dur("Yld:"+st, n, 20_000, 3_000_000)
+			}
 			s.Fault("yield")
 			s.Logf("yield", "%s %d", st, int64(d))
 			time.Sleep(d)
